@@ -15,6 +15,7 @@ directory.
 from __future__ import annotations
 
 import contextlib
+import copy
 import hashlib
 import os
 import shutil
@@ -226,6 +227,7 @@ def run_case(res, case, sigs, attempt=0):
                                  str(d.file_meta.TransferSyntaxUID))
             entry['canon'] = canon(d)
             entry['tag'] = str(d.PatientName)
+            entry['inst'] = str(d.SOPInstanceUID)
         except Exception as exc:
             entry['error'] = '%s: %s' % (type(exc).__name__, exc)
         received[k] = entry
@@ -235,7 +237,17 @@ def run_case(res, case, sigs, attempt=0):
         return statuses.Status(o, dimsemessages.CStoreRSPMessage)
 
     base = pynetdicom2.StorageAE if mode == 'storage-dir' else applicationentity.AE
-    Server = type('Server', (tcpnet.TapServerMixin, base), {'on_receive_store': handler})
+    lazy = mode != 'memory' and not forwarding and r.random() < 0.25
+    registered = []
+
+    def on_association_request(self, asce, assoc):
+        # an application that registers its storage service when the first association arrives
+        with lock:
+            if lazy and not registered:
+                registered.append(True)
+                self.add_scp(sopclass.storage_scp)
+    Server = type('Server', (tcpnet.TapServerMixin, base), {'on_receive_store': handler,
+                                                             'on_association_request': on_association_request})
     error = None
     returned = []
     _watch['dirs'].append(storage_dir)
@@ -258,7 +270,18 @@ def run_case(res, case, sigs, attempt=0):
                     if forwarding:
                         # a forwarding node: the same classes are also sent on (SCU role, registered first)
                         server.add_scu(sopclass.storage_scu, [svc.CT, svc.MR])
-                    server.add_scp(sopclass.storage_scp)
+                    if lazy:
+                        res.count('sim.service-registered-in-the-association-hook')
+                    elif forwarding:
+                        # (the ready-made storage_scp lists 139 classes: an entity serving all of them
+                        # cannot request an association at all - known finding more-than-128-classes)
+                        def two_class_storage(asce, ctx, msg):
+                            return sopclass.storage_scp(asce, ctx, msg)
+                        two_class_storage.sop_classes = [svc.CT, svc.MR]
+                        two_class_storage.store_in_file = True
+                        server.add_scp(two_class_storage)
+                    else:
+                        server.add_scp(sopclass.storage_scp)
                 with tcpnet.serving(server):
                     remote = {'aet': 'STORESCP', 'address': '127.0.0.1', 'port': server.port}
                     def client_run(ks, out):
@@ -275,6 +298,16 @@ def run_case(res, case, sigs, attempt=0):
                                     path = os.path.join(workdir, 'src-%d.dcm' % k)
                                     write_part10(ds, path, u, incomplete_meta=(i + k) % 3 == 0)
                                     arg = path
+                                elif (i + k) % 4 == 1:
+                                    # a data set that was read from a file of ANOTHER instance and then
+                                    # re-identified: the file meta it still carries is not what is sent
+                                    old = copy.deepcopy(ds)
+                                    old.SOPInstanceUID = '1.2.826.55.999.%d.%d' % (i, k)
+                                    path = os.path.join(workdir, 'old-%d.dcm' % k)
+                                    write_part10(old, path, u)
+                                    arg = pydicom.dcmread(path)
+                                    arg.SOPInstanceUID = ds.SOPInstanceUID
+                                    res.count('sim.re-identified-data-set')
                                 else:
                                     arg = ds
                                 if mode == 'storage-dir' and not concurrent:
@@ -299,6 +332,15 @@ def run_case(res, case, sigs, attempt=0):
                         client_run(range(nstores), returned)
                     if mode == 'storage-dir':
                         snaps.append(snapshot(storage_dir))
+                    if mode == 'storage-dir' and forwarding:
+                        # the node forwards an instance (SCU role of the same classes): the response it
+                        # receives is a message without a data set - nothing is to be stored for it
+                        forwarded = forward_one(server, datasets[0], sop_class, ts)
+                        after = snapshot(storage_dir)
+                        res.count('oracle.forwarding-leaves-the-store-alone')
+                        if forwarded != 0 or after != snaps[-1]:
+                            raise AssertionError('forwarding an instance returned status %r and changed the storage '
+                                                 'directory: %r' % (forwarded, sorted(set(after) ^ set(snaps[-1]))))
                     errs = getattr(server, 'handler_errors', [])
                     if errs and error is None:
                         error = errs[0]
@@ -323,6 +365,27 @@ def _guard(fn, ks, out):
         fn(ks, out)
     except BaseException as exc:
         out.append(exc)
+
+
+def forward_one(server, ds, sop_class, ts):
+    """The serving entity sends one instance on to a reference destination; -> status it got."""
+    from . import refcodec as R
+
+    def destination(peer):
+        peer.accept(max_len=16384)
+        ctx, cmd, data, lengths, problems = peer.recv_dimse()
+        peer.send_dimse(ctx, {R.TAG_AFFECTED_SOP_CLASS: cmd.get(R.TAG_AFFECTED_SOP_CLASS),
+                              R.TAG_COMMAND_FIELD: 0x8001, R.TAG_MESSAGE_ID_RSP: cmd.get(R.TAG_MESSAGE_ID),
+                              R.TAG_STATUS: 0, R.TAG_AFFECTED_SOP_INSTANCE: cmd.get(R.TAG_AFFECTED_SOP_INSTANCE)})
+        nxt = peer.recv_pdu()
+        if nxt['type'] == 5:
+            peer.send_pdu({'type': 6})
+    dest = tcpnet.PeerServer(destination, timeout=10.0)
+    try:
+        with server.request_association({'aet': 'NEXT', 'address': '127.0.0.1', 'port': dest.port}) as assoc:
+            return int(assoc.get_scu(sop_class)(ds, 77))
+    finally:
+        dest.close()
 
 
 def write_part10(ds, path, ts, incomplete_meta=False):
@@ -403,7 +466,8 @@ def judge(res, case, where, error, datasets, received, returned, outcomes, snaps
             res.violation('context-differs', 'C15.content', '%s: handler context %s / %s' % (
                 where, entry['sop_class'], entry['ts']), case)
         if entry.get('meta') and (entry['meta'][0] != sop_class or entry['meta'][2] != ts or
-                                  not entry['meta'][1].startswith('1.2.826.55.')):
+                                  not entry['meta'][1].startswith('1.2.826.55.') or
+                                  entry['meta'][1] != entry.get('inst')):
             res.violation('file-meta-differs', 'C15.content', '%s: stored file meta %r' % (
                 where, entry['meta']), case)
     if not concurrent and seen != [canon(ds) for ds in datasets][:len(seen)]:
